@@ -681,8 +681,8 @@ func execC09Agg(f []string) Result {
 				// the grouping was right (check (a)); what is left is the value path
 				var sig string
 				switch {
-				case (!okS || !okC) && op.without && len(op.fields) == 0:
-					// count without () filed under another key than avg/sum without () (repaired; a regression shows here)
+				case op.without && len(op.fields) == 0:
+					// count without () is one series name{ with the total (distinct ids), avg/sum without () are per series
 					sig = "promql-agg/count-without-empty-list"
 				case (!okS || !okC) && shape != "":
 					// sum/count filed their value under another key string (e.g. a '{' inside the metric name)
